@@ -1,8 +1,289 @@
+import Lean.Data.Json
 import Driver.Util
-/-! Line-protocol driver for C16 (not built yet). -/
+import Driver.ExecIO
+import GqlgenVerif.Model.Introspect
+import GqlgenVerif.Model.IntroGate
+/-! Line-protocol driver for C16. One line in (`<op> <json>`), one line out.
+
+* `mirror <schema>`  : the model's answer to the standard introspection query for the schema the harness
+                       serialised from gqlparser's `ast.Schema`, plus `wf` and the executable round trip
+* `chk {schema, impl}` : the Spec on the IMPLEMENTATION's answer: `rebuild impl = normalise schema`
+                       (first differing component), and the `includeDeprecated: false` views
+* `schema <exec-schema>` : sets the execution-model schema for the following `gate` lines
+* `gate <runner result>` : the execution model with the introspection gate closed, on the document,
+                       variables and resolver log the generated server reported -/
+open Lean GqlgenVerif.Introspect
+open GqlgenVerif (TRef)
 namespace Driver.C16
-def step (_line : String) : String := "bad-op"
+
+def optStr (j : Json) (k : String) : Option String :=
+  match j.getObjVal? k with
+  | .ok (.str s) => some s
+  | _ => none
+
+def str (j : Json) (k : String) : String := (optStr j k).getD ""
+def bool (j : Json) (k : String) : Bool := (j.getObjValAs? Bool k).toOption.getD false
+def arr (j : Json) (k : String) : List Json :=
+  match j.getObjVal? k with
+  | .ok (.arr a) => a.toList
+  | _ => []
+def obj? (j : Json) (k : String) : Option Json :=
+  match j.getObjVal? k with
+  | .ok v => if v.isNull then none else some v
+  | _ => none
+
+def kindOf (s : String) : Kind :=
+  match s with
+  | "OBJECT" => .object | "INTERFACE" => .interface | "UNION" => .union
+  | "ENUM" => .enum | "INPUT_OBJECT" => .inputObject | _ => .scalar
+
+/-! ### schema (harness format) → model -/
+
+partial def tref (j : Json) : TRef :=
+  match obj? j "elem" with
+  | some e => .list (tref e) (bool j "nn")
+  | none => .named (str j "name") (bool j "nn")
+
+def dep (j : Json) : Dep :=
+  match obj? j "dep" with
+  | none => none
+  | some d => some (optStr d "reason")
+
+def typeOf (j : Json) : TRef := match obj? j "type" with | some t => tref t | none => .named "" false
+
+def argDef (j : Json) : ArgDef :=
+  { name := str j "name", description := str j "description", type := typeOf j,
+    default := optStr j "default", dep := dep j }
+
+def fieldDef (j : Json) : FieldDef :=
+  { name := str j "name", description := str j "description", args := (arr j "args").map argDef,
+    type := typeOf j, default := optStr j "default", dep := dep j }
+
+def schemaOf (j : Json) : GqlgenVerif.Introspect.Schema :=
+  { description := str j "description", query := optStr j "query", mutation := optStr j "mutation",
+    subscription := optStr j "subscription",
+    types := (arr j "types").map fun t =>
+      { name := str t "name", kind := kindOf (str t "kind"), description := str t "description",
+        fields := (arr t "fields").map fieldDef,
+        interfaces := (arr t "interfaces").filterMap fun x => x.getStr?.toOption,
+        possible := (arr t "possible").map fun p => (str p "name", kindOf (str p "kind")),
+        enumValues := (arr t "enumValues").map fun v =>
+          { name := str v "name", description := str v "description", dep := dep v },
+        specifiedBy := optStr t "specifiedBy", oneOf := bool t "oneOf" },
+    directives := (arr j "directives").map fun d =>
+      { name := str d "name", description := str d "description",
+        locations := (arr d "locations").filterMap fun x => x.getStr?.toOption,
+        args := (arr d "args").map argDef, repeatable := bool d "repeatable" } }
+
+/-! ### tree → JSON (the standard introspection query's answer) -/
+
+def jopt : Option String → Json
+  | some s => .str s
+  | none => .null
+
+def jref : ITypeRef → Json
+  | .named k n => Json.mkObj [("kind", k.str), ("name", n), ("ofType", .null)]
+  | .list t => Json.mkObj [("kind", "LIST"), ("name", .null), ("ofType", jref t)]
+  | .nonNull t => Json.mkObj [("kind", "NON_NULL"), ("name", .null), ("ofType", jref t)]
+  | .nilDeref => "PANIC"
+
+def jiv (v : IInputValue) : Json :=
+  Json.mkObj [("name", v.name), ("description", jopt v.description), ("type", jref v.type),
+    ("defaultValue", jopt v.defaultValue), ("isDeprecated", v.isDeprecated),
+    ("deprecationReason", jopt v.deprecationReason)]
+
+def jarr {α} (f : α → Json) (l : List α) : Json := .arr (l.map f).toArray
+
+def jfield (f : IField) : Json :=
+  Json.mkObj [("name", f.name), ("description", jopt f.description), ("args", jarr jiv f.args),
+    ("type", jref f.type), ("isDeprecated", f.isDeprecated), ("deprecationReason", jopt f.deprecationReason)]
+
+def jev (v : IEnumValue) : Json :=
+  Json.mkObj [("name", v.name), ("description", jopt v.description), ("isDeprecated", v.isDeprecated),
+    ("deprecationReason", jopt v.deprecationReason)]
+
+def jtype (s : GqlgenVerif.Introspect.Schema) (d : TypeDef) : Json :=
+  let t := introType s d
+  Json.mkObj [("kind", t.kind.str), ("name", jopt t.name), ("description", jopt t.description),
+    ("specifiedByURL", jopt t.specifiedByURL), ("isOneOf", t.isOneOf),
+    ("fields", jarr jfield t.fields),
+    ("fieldsCurrent", jarr (fun f => Json.str f.name) (introFields s false d)),
+    ("inputFields", jarr jiv t.inputFields), ("interfaces", jarr jref t.interfaces),
+    ("possibleTypes", jarr jref t.possibleTypes), ("enumValues", jarr jev t.enumValues),
+    ("enumValuesCurrent", jarr (fun v => Json.str v.name) (introEnumValues false d))]
+
+def jroot : Option String → Json
+  | some n => Json.mkObj [("name", n)]
+  | none => .null
+
+def jtree (s : GqlgenVerif.Introspect.Schema) : Json :=
+  let t := introspect s
+  Json.mkObj [("description", jopt t.description), ("queryType", jroot t.queryType),
+    ("mutationType", jroot t.mutationType), ("subscriptionType", jroot t.subscriptionType),
+    ("types", jarr (jtype s) (sortOn TypeDef.name s.types)),
+    ("directives", jarr (fun d => Json.mkObj [("name", d.name), ("description", jopt d.description),
+        ("locations", jarr Json.str d.locations), ("args", jarr jiv d.args), ("isRepeatable", d.isRepeatable)])
+      t.directives)]
+
+/-! ### the implementation's answer (JSON) → tree -/
+
+partial def pref (j : Json) : ITypeRef :=
+  match j with
+  | .str _ => .nilDeref
+  | _ =>
+    match str j "kind" with
+    | "LIST" => match obj? j "ofType" with | some t => .list (pref t) | none => .list .nilDeref
+    | "NON_NULL" => match obj? j "ofType" with | some t => .nonNull (pref t) | none => .nonNull .nilDeref
+    | k => .named (kindOf k) (str j "name")
+
+def prefOf (j : Json) (k : String) : ITypeRef :=
+  match j.getObjVal? k with | .ok t => pref t | _ => .nilDeref
+
+def piv (j : Json) : IInputValue :=
+  { name := str j "name", description := optStr j "description", type := prefOf j "type",
+    defaultValue := optStr j "defaultValue", isDeprecated := bool j "isDeprecated",
+    deprecationReason := optStr j "deprecationReason" }
+
+def ptype (j : Json) : IType :=
+  { kind := kindOf (str j "kind"), name := optStr j "name", description := optStr j "description",
+    specifiedByURL := optStr j "specifiedByURL", isOneOf := bool j "isOneOf",
+    fields := (arr j "fields").map fun f =>
+      { name := str f "name", description := optStr f "description", args := (arr f "args").map piv,
+        type := prefOf f "type", isDeprecated := bool f "isDeprecated",
+        deprecationReason := optStr f "deprecationReason" },
+    inputFields := (arr j "inputFields").map piv,
+    interfaces := (arr j "interfaces").map pref, possibleTypes := (arr j "possibleTypes").map pref,
+    enumValues := (arr j "enumValues").map fun v =>
+      { name := str v "name", description := optStr v "description", isDeprecated := bool v "isDeprecated",
+        deprecationReason := optStr v "deprecationReason" } }
+
+def ptree (j : Json) : ITree :=
+  { description := optStr j "description",
+    queryType := (obj? j "queryType").bind (optStr · "name"),
+    mutationType := (obj? j "mutationType").bind (optStr · "name"),
+    subscriptionType := (obj? j "subscriptionType").bind (optStr · "name"),
+    types := (arr j "types").map ptype,
+    directives := (arr j "directives").map fun d =>
+      { name := str d "name", description := optStr d "description",
+        locations := (arr d "locations").filterMap fun x => x.getStr?.toOption,
+        args := (arr d "args").map piv, isRepeatable := bool d "isRepeatable" } }
+
+/-- first component in which the rebuilt schema differs from the normal form of the loaded one -/
+def diffType (a b : TypeDef) : Option String :=
+  if a.kind != b.kind then some "kind"
+  else if a.description != b.description then some "description"
+  else if a.fields.map (·.name) != b.fields.map (·.name) then some "field-names"
+  else if a.fields.map (·.dep) != b.fields.map (·.dep) then
+    some (if isFieldsKind b.kind then "field-deprecation" else "input-field-deprecation")
+  else if a.fields.map (fun f => f.args.map (·.dep)) != b.fields.map (fun f => f.args.map (·.dep)) then
+    some "argument-deprecation"
+  else if a.fields.map (fun f => f.args.map (·.default)) != b.fields.map (fun f => f.args.map (·.default))
+    || a.fields.map (·.default) != b.fields.map (·.default) then some "default-value"
+  else if a.fields != b.fields then some "fields"
+  else if a.interfaces != b.interfaces then some "interfaces"
+  else if a.possible != b.possible then some "possible-types"
+  else if a.enumValues != b.enumValues then some "enum-values"
+  else if a.specifiedBy != b.specifiedBy then some "specifiedBy"
+  else if a.oneOf != b.oneOf then some "oneOf"
+  else none
+
+def diffDir (a b : DirDef) : Option String :=
+  if a.args.map (·.dep) != b.args.map (·.dep) then some "directive-argument-deprecation"
+  else if a.repeatable != b.repeatable then some "repeatable"
+  else if a.locations != b.locations then some "locations"
+  else if a != b then some "directive"
+  else none
+
+def diffSchema (a b : GqlgenVerif.Introspect.Schema) : Option String :=
+  if a.description != b.description then some "schema.description"
+  else if a.query != b.query || a.mutation != b.mutation || a.subscription != b.subscription then some "schema.roots"
+  else if a.types.map (·.name) != b.types.map (·.name) then some "schema.type-names"
+  else if a.directives.map (·.name) != b.directives.map (·.name) then some "schema.directive-names"
+  else
+    match (a.types.zip b.types).findSome? fun (x, y) => (diffType x y).map fun c => y.name ++ ":" ++ c with
+    | some c => some c
+    | none =>
+      (a.directives.zip b.directives).findSome? fun (x, y) => (diffDir x y).map fun c => "@" ++ y.name ++ ":" ++ c
+
+/-- the `includeDeprecated: false` views of the implementation's answer hold exactly the elements it
+    reports as not deprecated -/
+def currentViews (impl : Json) : Option String :=
+  (arr impl "types").findSome? fun t =>
+    let cur (all cur : String) : Bool :=
+      ((arr t all).filter (fun f => !bool f "isDeprecated")).map (str · "name") ==
+        (arr t cur).filterMap fun x => x.getStr?.toOption
+    if !cur "fields" "fieldsCurrent" then some (str t "name" ++ ":fields(includeDeprecated:false)")
+    else if !cur "enumValues" "enumValuesCurrent" then some (str t "name" ++ ":enumValues(includeDeprecated:false)")
+    else none
+
+def mirror (j : Json) : String :=
+  let s := schemaOf j
+  (Json.mkObj [("wf", s.wf), ("wfFail", jarr Json.str ((s.types.filter fun d => !typeWF s d).map (·.name) ++
+      (s.directives.filter fun d => !dirWF s d).map fun d => "@" ++ d.name)), ("roundtrip", decide (rebuild (introspect s) = normalise s)),
+    ("tree", jtree s)]).compress
+
+def chk (j : Json) : String :=
+  match obj? j "schema", obj? j "impl" with
+  | some sj, some ij =>
+    let s := schemaOf sj
+    if !s.wf then "not-wf" else
+    match diffSchema (rebuild (ptree ij)) (normalise s) with
+    | some c => "violates:" ++ c
+    | none =>
+      match currentViews ij with
+      | some c => "violates:" ++ c
+      | none => "ok"
+  | _, _ => "bad-op"
+
+/-! ### the gate -/
+open GqlgenVerif GqlgenVerif.IntroGate Driver.ExecIO in
+def gate (s : GqlgenVerif.Schema) (j : Json) : String :=
+  match j.getObjVal? "doc" with
+  | .error _ => "no-doc"
+  | .ok dj =>
+    let d := doc dj
+    let vs := match j.getObjVal? "variables" with | .ok v => vars v | _ => []
+    let s' := injectRoots s
+    match s'.type? s'.query with
+    | none => "no-root"
+    | some root =>
+      match planFields s' (implCollector s' d.frags vs) 100000 root d.sels with
+      | none => "out-of-fuel"
+      | some fields =>
+        let o := gateOracle fields (oracle (ExecIO.arr j "log"))
+        let (out, st) := Impl.execRoot o s'.query fields
+        (Json.mkObj [("data", Json.str (render out)),
+          ("errors", Json.arr ((errStrs st.errs).map Json.str).toArray),
+          ("wf", Json.bool (fieldsWfb fields)), ("noDirs", Json.bool (gatedNoDirs fields)),
+          ("unlogged", Json.arr (st.unlogged.map Json.str).toArray),
+          ("gated", Json.arr ((gatedKeys fields).map fun (k, n, nn) =>
+              Json.mkObj [("key", k), ("name", n), ("nn", nn), ("msg", gateMsg n)]).toArray)]).compress
+
+partial def loop (h out : IO.FS.Stream) (st : IO.Ref (Option GqlgenVerif.Schema)) : IO Unit := do
+  let line ← h.getLine
+  if line.isEmpty then return ()
+  let l := if line.back == '\n' then (line.dropEnd 1).toString else line
+  let (op, rest) := match l.splitOn " " with
+    | [] => ("", "")
+    | o :: r => (o, " ".intercalate r)
+  let res ←
+    match Json.parse rest with
+    | .error e => pure ("bad-json " ++ e)
+    | .ok j =>
+      match op with
+      | "mirror" => pure (mirror j)
+      | "chk" => pure (chk j)
+      | "schema" => do st.set (some (Driver.ExecIO.schema j)); pure "ok"
+      | "gate" => do
+        match (← st.get) with
+        | some s => pure (gate s j)
+        | none => pure "no-schema"
+      | _ => pure "bad-op"
+  out.putStrLn res
+  loop h out st
+
 end Driver.C16
 
 def main : IO Unit := do
-  Driver.loop (← IO.getStdin) (← IO.getStdout) Driver.C16.step
+  let st ← IO.mkRef (none : Option GqlgenVerif.Schema)
+  Driver.C16.loop (← IO.getStdin) (← IO.getStdout) st
